@@ -312,6 +312,13 @@ def work(spec):
                         for framing in ('cl', 'chunked'):
                             app, seen = apps[102400]
                             run(res, app, seen, body, 'application/json', acc, framing, None, 102400)
+        # JSON numbers beyond what the interpreter converts (int digit limit), huge exponents, huge strings of escapes
+        for body in (b'9' * 4300, b'9' * 4301, b'9' * 20000, b'[' + b'9' * 5000 + b']', b'{"a": -' + b'1' * 6000 + b'}', b'1e999999', b'-1E' + b'9' * 400,
+                     b'0.' + b'1' * 9000, b'"' + b'\\u00e9' * 2000 + b'"', b'"' + b'\\ud800' * 500 + b'"', b'[' + b'1,' * 20000 + b'1]'):
+            for acc in ('json', 'forms', 'params', 'body'):
+                for framing in ('cl', 'chunked'):
+                    app, seen = apps[102400]
+                    run(res, app, seen, body, 'application/json', acc, framing, None, 102400)
         # long runs of one character inside part headers (quoted parameter values that are never closed, or closed by something
         # unexpected): nothing in the header parsing may take more than linear time
         for ch in (b'\\', b'"', b';', b'=', b' ', b'a'):
